@@ -207,6 +207,23 @@ Arguments reset {E}.
 Arguments OAppend {E}. Arguments OSetLength {E}. Arguments OSlice {E}.
 Arguments OIncRes {E}. Arguments ODeepcopy {E}. Arguments OReinit {E}. Arguments OReset {E}.
 
+(** [increase_resolution(k, fill_event=f)] is public on the classes that
+    inherit the base method (SimpleEventSequence, ChordProgression): there the
+    fill event is a per-call argument.  A history with explicit fill events is
+    a list of (explicit fill or None, op); None means the class default. *)
+Definition step_f {E} (class_pad : option E) (valid : E -> bool) (clean : list E -> list E)
+           (fill : option E) (extend_fix : nat -> list E -> list E)
+           (s : st E) (fo : option E * op E) : st E * outcome :=
+  step E class_pad valid clean (match fst fo with Some f => Some f | None => fill end) extend_fix s (snd fo).
+
+Fixpoint trace_f {E} (class_pad : option E) valid clean (fill : option E) extend_fix
+         (s : st E) (ops : list (option E * op E)) : list (st E * outcome) :=
+  match ops with
+  | [] => []
+  | o :: r => let so := step_f class_pad valid clean fill extend_fix s o in
+              so :: trace_f class_pad valid clean fill extend_fix (fst so) r
+  end.
+
 (* ------------------------------------------------------------------ *)
 (** * The two repaired methods as they are in a tree WITHOUT
       notes/C17-fix-1.diff and notes/C17-fix-2.diff.  Only the [_refuted]
